@@ -245,8 +245,12 @@ def check_case(rep, drv, case, modes, rng, all_cuts=True):
             rep.count('skipped-not-roundtripping')
             continue
         n = len(data)
-        if all_cuts or n <= 40:
+        if n <= 40 or (all_cuts and n <= 400):
             cuts = range(n)
+        elif all_cuts:
+            # thorough tier on a long encoding: every cut near both ends, a sample in between (every cut of a 5000-octet string
+            # through a dozen stream kinds would take the tier into hours without meeting another element boundary)
+            cuts = sorted(set(list(range(0, 150)) + [rng.randrange(n) for _ in range(150)] + list(range(n - 100, n))))
         else:
             cuts = sorted(set(list(range(0, 12)) + [rng.randrange(n) for _ in range(20)] + list(range(n - 6, n))))
         check_prefixes(rep, drv, case, mode, data, True, cuts)
@@ -270,7 +274,7 @@ def run(rep, tier, seed):
     common.prove(rep)
     rng = common.rng_for(seed, 'C06')
     drv = common.Driver()
-    n = 700 if tier == "quick" else 12000
+    n = 700 if tier == "quick" else 6000
     rep.rule = ('valid encodings (BER definite/indefinite/chunked, CER, DER) of generated values x every cut point k in [0,|e|) '
                 '(sampled cuts for encodings longer than 40 octets) x {bytes one-shot, seekable stream, non-seekable stream; '
                 'closed at the cut / still open} x {with, without guiding type}; non-trivial = type depth>=1 or tagged')
